@@ -50,11 +50,17 @@ CLAIMED = {
              "59+|info| <= k-11 (RSA-1024/2048 as corollaries), decrypt_metadata(encrypt_metadata(m)) returns m field for field with "
              "size = |dumps|-8, under explicit assumptions on RSA/PKCS#1 v1.5 (CryptoLaws, satisfiable). Every blob that fails to decrypt, has "
              "the wrong length, is short, truncated or lacks the 0xBEEF magic yields ValueError and nothing else (decrypt_only_valueError). "
-             "AES and HMAC keys are the two 16-byte halves of SHA-256(aes_rand). The struct layout is a generated table re-proved by decide.",
+             "AES and HMAC keys are the two 16-byte halves of SHA-256(aes_rand). The struct layout is a generated table re-proved by decide. "
+             "decrypt_metadata and encrypt_metadata are translated from their source text on every run (tools/gen/py_c2m.py -> Gen/PyC2M.lean; the "
+             "cstruct parse / dumps over the generated layout, PKCS#1 as parameters) and proved equal to the model for every blob, every metadata, "
+             "any key object and all primitives incl. every raising branch (C06Gen.gen_decrypt_metadata, gen_encrypt_metadata; metadata_roundtrip, "
+             "decrypt_only_valueError restated; 13 theorems).",
         note="RSA and SHA-256 are model parameters, not verified; dissect.cstruct read/write semantics are modelled from measurements and "
              "exercised by dedicated dumps/parse streams against the real package. Layout from tools/gen/c2struct.py. Correspondence uses "
              "pycryptodome keys from corpus/C06/*.pem plus one seed-derived key, against the compiled model and an independent struct.pack oracle.",
-        design="§4 C06, §1.2",
+        design="§4 C06, §1.2, §12.6",
+        technique="Lean 4 theorems about an executable model; model tied to the code by source-to-Lean translation (proved equal) and by a "
+                  "model/implementation correspondence check",
     ),
     "C15": dict(
         text="Lean theorems over the executable model of iter_find_needle and iter_artifactkit_payloads: for every file content, position, file "
@@ -293,14 +299,21 @@ CLAIMED = {
              "client's and a reference team server's messages decode with one decoder object to exactly the packets sent, in order (session_decodes, "
              "induction over events with a decoder-state invariant; RSA-only decoders from the message after the first check-in - "
              "keys_read_before_metadata pins the evaluation order). Routing is characterised exactly by verb and URI prefix (routing_decision, "
-             "routing_ignores_rest), and unrelated requests give ValueError with no state change and no primitive call (unrelated_rejected).",
+             "routing_ignores_rest), and unrelated requests give ValueError with no state change and no primitive call (unrelated_rejected). "
+             "C2Http.__init__, get_transform_for_http and the generator iter_recover_http are translated from their source text on every run "
+             "(tools/gen/py_c2h.py -> Gen/PyC2H.lean; calls of parse_raw_http, HttpDataTransform, decrypt_metadata, decrypt_packet are calls of the "
+             "definitions translated for C16, C04, C06, C05) and proved equal to the model (C07Gen.gen_get_transform_for_http = routing_decision, "
+             "gen_c2http_init = every exception in order and every attribute, gen_iter_recover_http = packets and decoder state afterwards, or the "
+             "exception; 17 theorems).",
         note="Crypto primitives are parameters with explicit laws; the harness supplies their results computed independently. Not proved: httpx/h11's "
              "actual serialisation (the differences to the C16 rendering are checked on every captured message), uri-append with the client's "
              "non-empty initial URI (known finding C07-uri-append-initial-uri, same root cause as C04's), configurations outside WireCfg "
              "(non-token verbs, unclean paths, empty static parameter values). The real HttpBeaconClient plus a capturing peer and "
              "C2Http.iter_recover_http under the three key variants are compared with the model on generated sessions (sample beacons + synthetic "
              "configurations with own RSA keys).",
-        design="§4 C07",
+        design="§4 C07, §12.6",
+        technique="Lean 4 theorems about an executable model; model tied to the code by source-to-Lean translation (proved equal) and by a "
+                  "model/implementation correspondence check",
     ),
     "C01": dict(
         text="Machine-checked (Lean 4): for every file content, key list, all-keys mode, detector answer, residual key order, Guardrails outcome, "
